@@ -20,12 +20,20 @@ def gpp(dirpath, main_cpp):
     cmd = ["g++", "-std=c++23", "-fsyntax-only", "-fmax-errors=5", "-w", "-I", dirpath] + sum((["-I", i] for i in INCLUDES), []) + [main_cpp]
     r = subprocess.run(cmd, capture_output=True, text=True, timeout=900)
     diags = []
+    def src_line(path, ln):
+        try: return open(path, errors="replace").read().split("\n")[int(ln) - 1]
+        except Exception: return ""
     for l in r.stderr.split("\n"):
-        m = re.match(r"(.*?):(\d+):(\d+): (fatal error|error): (.*)$", l)
-        if m:
-            msg = m.group(5)
-            ids = re.findall(r"[‘'`]([^’'`]+)[’']", msg)
-            diags.append({"file": os.path.basename(m.group(1)), "line": int(m.group(2)), "message": msg[:200], "idents": ids})
+        m = re.match(r"(.*?):(\d+):(\d+): (fatal error|error|note): (.*)$", l)
+        if not m: continue
+        if m.group(4) == "note":
+            # notes belong to the preceding error: the declaration / definition they point at is part of what it names
+            if diags: diags[-1]["span_text"] = (diags[-1]["span_text"] + " | " + src_line(m.group(1), m.group(2)))[:800]
+            continue
+        msg = m.group(5)
+        ids = re.findall(r"[‘'`]([^’'`]+)[’']", msg)
+        diags.append({"file": os.path.basename(m.group(1)), "line": int(m.group(2)), "message": msg[:200], "idents": ids,
+                      "span_text": src_line(m.group(1), m.group(2))[:400]})
     return r.returncode == 0, diags
 
 def predict(scopes, M):
@@ -46,6 +54,10 @@ def predict(scopes, M):
             modcase = len({x.lower() for x in ns}) > 1
             cls = ("cpp-dup-snake" if snake_pos else "cpp-pascal-digit-merge") if modcase else "case-only-collision"
             R.append({"reason": cls, "ident": ident, "names": sorted(set(ns)), "scope": s["owner"]})
+        if snake_pos:
+            for n in names:
+                if M[n]["c"] in LIBC_MACROS:
+                    R.append({"reason": "cpp-libc-macro-name", "ident": M[n]["c"], "names": [n], "scope": s["owner"]})
         if snake_pos:      # parameters, fields and every namespace component (interfaces, package namespace, world)
             for n in names:
                 if M[n]["c"] in STD_TYPEDEFS:
@@ -59,25 +71,34 @@ def predict(scopes, M):
 # <cstddef>/<cstdint> typedef names the generated code uses unqualified inside function bodies
 STD_TYPEDEFS = {"size_t", "uint8_t", "int8_t", "uint16_t", "int16_t", "uint32_t", "int32_t", "uint64_t", "int64_t", "uintptr_t", "intptr_t", "ptrdiff_t"}
 
+# object-like macros of the C library headers the generated code includes (to_c_ident escapes stdin/stdout/stderr only)
+LIBC_MACROS = {"errno"}
+
+def mentions(diag, ident):
+    """the predicted identifier occurs, as a whole token, in the message or in the source line the compiler points at"""
+    pat = re.compile(r"(?<![A-Za-z0-9_])" + re.escape(ident) + r"(?![A-Za-z0-9_])")
+    return any(ident == i or pat.search(i) for i in diag["idents"]) or bool(pat.search(diag.get("span_text", ""))) or bool(pat.search(diag["message"]))
+
 def stem(msg):
     m = re.sub(r"[‘'`][^’'`]*[’']", "_", msg)
     m = re.sub(r"\d+", "N", m)
     return re.sub(r"[^A-Za-z_]+", "-", m).strip("-")[:70]
 
 def explain(diag, reasons):
-    msg, ids = diag["message"], diag["idents"]
-    kw = [r for r in reasons if "keyword" in r["reason"]]
-    if kw and (any(r["ident"] in ids for r in kw) or re.search(r"expected|before|does not declare|does not name|invalid|cannot|declared void|two or more|multiple types|declaration of", msg)):
-        return ([r for r in kw if r["ident"] in ids] or kw)[0]
-    dup = [r for r in reasons if r["reason"] in ("cpp-dup-snake", "cpp-pascal-digit-merge", "case-only-collision")]
-    if dup and re.search(r"redeclar|redefin|conflicting|duplicate|ambiguous|overloaded|previous", msg):
-        return ([r for r in dup if any(r["ident"] in i for i in ids)] or dup)[0]
-    std = [r for r in reasons if r["reason"] == "cpp-std-typedef-shadow"]
-    if std and (any(r["ident"] in ids for r in std) or re.search(r"cannot be used as|expected|does not name a type|not declared|no match for call|invalid|cannot convert|redeclared as different kind|is not a class, namespace", msg)):
-        return ([r for r in std if r["ident"] in ids] or std)[0]
-    tmp = [r for r in reasons if r["reason"] == "cpp-temp-clash"]
-    if tmp and (re.search(r"redeclar|conflicting|shadows|previous|cannot convert|invalid conversion|no match|not declared", msg)):
-        return ([r for r in tmp if r["ident"] in ids] or tmp)[0]
+    """the predicted reason that accounts for this diagnostic, if any: the first failing diagnostic must name the predicted
+    identifier (in its message or in the source line it points at)"""
+    msg = diag["message"]
+    for kind, pat in (("keyword", None),
+                      ("dup", r"redeclar|redefin|conflicting|duplicate|ambiguous|overloaded|previous"),
+                      ("cpp-std-typedef-shadow", None), ("cpp-libc-macro-name", None), ("cpp-temp-clash", None)):
+        for r in reasons:
+            if kind == "keyword":
+                if "keyword" not in r["reason"]: continue
+            elif kind == "dup":
+                if r["reason"] not in ("cpp-dup-snake", "cpp-pascal-digit-merge", "case-only-collision"): continue
+                if not re.search(pat, msg): continue
+            elif r["reason"] != kind: continue
+            if mentions(diag, r["ident"]): return r
     return None
 
 def systematic_worlds(rng, tier):
